@@ -19,18 +19,19 @@ pub struct Config {
     pub activity: Option<(f32, f32)>,
     pub gate_fs: bool,
     pub sort_peeks: bool,
+    pub peek_join: bool,
     pub render: bool,
 }
 
 impl Default for Config {
-    fn default() -> Self { Config { mode: "sync".into(), sched: "fifo".into(), cancel: None, cancel_call: None, transient: false, activity: None, gate_fs: false, sort_peeks: false, render: true } }
+    fn default() -> Self { Config { mode: "sync".into(), sched: "fifo".into(), cancel: None, cancel_call: None, transient: false, activity: None, gate_fs: false, sort_peeks: false, peek_join: false, render: true } }
 }
 
 impl Config {
     pub fn to_line(&self) -> String {
-        format!("config mode {} sched {} cancel {} transient {} activity {} gatefs {} sortpeeks {} render {}",
+        format!("config mode {} sched {} cancel {} transient {} activity {} gatefs {} sortpeeks {} peekjoin {} render {}",
             self.mode, self.sched, self.cancel.map(|c| c.to_string()).or(self.cancel_call.map(|c| format!("c{c}"))).unwrap_or("-".into()), self.transient as u8,
-            self.activity.map(|(a, d)| format!("{a}:{d}")).unwrap_or("-".into()), self.gate_fs as u8, self.sort_peeks as u8, self.render as u8)
+            self.activity.map(|(a, d)| format!("{a}:{d}")).unwrap_or("-".into()), self.gate_fs as u8, self.sort_peeks as u8, self.peek_join as u8, self.render as u8)
     }
     pub fn from_line(l: &str) -> Config {
         let t: Vec<&str> = l.split(' ').filter(|s| !s.is_empty()).collect();
@@ -45,6 +46,7 @@ impl Config {
                 "activity" => c.activity = t[i + 1].split_once(':').map(|(a, d)| (a.parse().unwrap(), d.parse().unwrap())),
                 "gatefs" => c.gate_fs = t[i + 1] == "1",
                 "sortpeeks" => c.sort_peeks = t[i + 1] == "1",
+                "peekjoin" => c.peek_join = t[i + 1] == "1",
                 "render" => c.render = t[i + 1] == "1",
                 _ => {}
             }
@@ -103,12 +105,18 @@ pub fn gen_cancel_async_case(rng: &mut Rng) -> Vec<String> {
     let mut cfg = Config { render: false, mode: "async".into(), ..Config::default() };
     cfg.sched = match rng.below(4) { 0 => "fifo".into(), 1 => "lifo".into(), _ => format!("rand:{}", rng.below(1 << 30)) };
     cfg.gate_fs = rng.chance(1, 2);
+    // 1/3: a provider whose sort_candidates looks ahead through the SolverCache, mostly concurrently (requests issued from
+    // inside the provider overlap with the encoder's own; a refused request makes the provider drop the others)
+    cfg.sort_peeks = rng.chance(1, 3);
+    cfg.peek_join = cfg.sort_peeks && rng.chance(2, 3);
     let mut probe = lines.clone();
     probe.push(cfg.to_line());
     let out = run_case(&probe);
     let polls: usize = out.iter().find_map(|l| l.strip_prefix("polls ").and_then(|x| x.parse().ok())).unwrap_or(1);
     let calls: usize = out.iter().find(|l| l.starts_with("calls")).map(|l| l.split(' ').filter(|w| w.starts_with('c') && *w != "calls" || w.starts_with('d')).count()).unwrap_or(0);
-    cfg.transient = rng.chance(1, 3);
+    // (a provider cannot hand a refusal it received inside sort_candidates back to the solver: only a latched signal is
+    // guaranteed to reach the solver's own polls, so look-ahead providers get no transient plans)
+    cfg.transient = !cfg.sort_peeks && rng.chance(1, 3);
     if calls > 0 && rng.chance(1, 2) { cfg.cancel_call = Some(rng.below(calls as u64) as usize); }
     else { cfg.cancel = Some(rng.below(polls as u64 + 1) as usize); }
     lines.push(cfg.to_line());
@@ -117,7 +125,67 @@ pub fn gen_cancel_async_case(rng: &mut Rng) -> Vec<String> {
 
 /// C13: several solves on one solver (same or different problems, optionally with a transient
 /// cancellation somewhere in the history so that later solves run after a Cancelled outcome).
+/// Two long dependency chains, solved several times on one solver: `p0 -> p1 -> ... -> p(N-1)` with one candidate per
+/// package (a solve that enters it `len` packages before the end has exactly `len` solvable variables), and a chain of
+/// packages with two candidates each whose preferred candidate is usually excluded (many variables, half of them
+/// assigned false). The lengths are biased towards 63..65 and 127..129: state that is reused between solves - and
+/// anything chunked in 128 entries, like the watch map, which is indexed by literal = 2 x variable - changes shape exactly
+/// there, which the small universes of the other shapes never reach.
+fn gen_chain_reuse_case(rng: &mut Rng, async_mode: bool) -> Vec<String> {
+    use crate::universe::{Deps, Pkg, Solv, Universe, VSet};
+    let n = 134u32;
+    let m = rng.range(36, 48) as u32;
+    let mut u = Universe::default();
+    for i in 0..n {
+        u.pkgs.insert(i, Pkg { cands: vec![i], ..Default::default() });
+        u.vsets.insert(i, VSet { name: i, matching: vec![i] });
+        let reqs = if i + 1 < n { vec![Req::Single(i + 1)] } else { vec![] };
+        u.solvs.insert(i, Solv { name: i, rank: 0, deps: Deps::Known { reqs, cons: vec![] } });
+    }
+    let mut next_s = n;
+    for k in 0..m {
+        let name = n + k;
+        let cs = vec![next_s, next_s + 1];
+        let mut pk = Pkg { cands: cs.clone(), ..Default::default() };
+        if rng.chance(3, 4) { pk.excluded.push((cs[0], 1)); }
+        u.pkgs.insert(name, pk);
+        u.vsets.insert(name, VSet { name, matching: cs.clone() });
+        for (j, &c) in cs.iter().enumerate() {
+            let reqs = if k + 1 < m { vec![Req::Single(name + 1)] } else { vec![] };
+            u.solvs.insert(c, Solv { name, rank: j as u32, deps: Deps::Known { reqs, cons: vec![] } });
+        }
+        next_s += 2;
+    }
+    let mut lines = u.to_lines();
+    let pick_len = |rng: &mut Rng| -> u32 {
+        match rng.below(8) { 0 | 1 => 64, 2 => 128, 3 => rng.range(62, 66) as u32, 4 => rng.range(126, 130) as u32, 5 => rng.range(30, 34) as u32, _ => rng.range(1, n as u64) as u32 }
+    };
+    let mut probs: Vec<Problem> = Vec::new();
+    for k in 0..rng.range(2, 3) {
+        if k > 0 || rng.chance(1, 3) {
+            let mut p = Problem::default();
+            p.reqs.push(Req::Single(n + rng.below(4) as u32));
+            probs.push(p);
+        }
+        let len = pick_len(rng).min(n);
+        let mut p = Problem::default();
+        p.reqs.push(Req::Single(n - len));
+        probs.push(p);
+    }
+    { let mut p = Problem::default(); p.reqs.push(Req::Single(n + rng.below(4) as u32)); probs.push(p); }
+    if rng.chance(1, 2) { let p0 = probs[0].clone(); probs.push(p0); }
+    for p in &probs { lines.push(p.to_line()); }
+    let mut cfg = Config { render: false, ..Config::default() };
+    if async_mode {
+        cfg.mode = "async".into();
+        cfg.sched = match rng.below(3) { 0 => "fifo".into(), 1 => "lifo".into(), _ => format!("rand:{}", rng.below(1 << 30)) };
+    }
+    lines.push(cfg.to_line());
+    lines
+}
+
 pub fn gen_reuse_case(rng: &mut Rng, async_mode: bool) -> Vec<String> {
+    if rng.chance(1, 60) { return gen_chain_reuse_case(rng, async_mode); }
     let kind = *rng.pick(&[Kind::General, Kind::Tight, Kind::Hints, Kind::Hints, Kind::Soft, Kind::Soft, Kind::Lazy, Kind::FalseThenTrue]);
     let g = gen::generate(rng, kind);
     let mut lines = g.u.to_lines();
@@ -195,6 +263,7 @@ pub fn gen_async_case(rng: &mut Rng, conflict_free: bool) -> Vec<String> {
     // 1/5: a provider whose sort_candidates reads the candidates' dependencies through the SolverCache (as conda-style
     // providers do): its queries overlap with the solver's own outstanding requests (oracles only, not modelled)
     cfg.sort_peeks = rng.chance(1, 5);
+    cfg.peek_join = cfg.sort_peeks && rng.chance(1, 2);
     lines.push(cfg.to_line());
     lines
 }
@@ -338,6 +407,7 @@ pub fn run_case(lines: &[String]) -> Vec<String> {
     let mut out = Vec::new();
     let mut provider = TableProvider::new(u);
     provider.sort_peeks_deps = cfg.sort_peeks;
+    provider.sort_peeks_join = cfg.peek_join;
     *provider.cancel.borrow_mut() = CancelPlan { at: cfg.cancel, at_call: cfg.cancel_call, transient: cfg.transient };
     if cfg.mode == "async" {
         let gates = Rc::new(Gates::default());
